@@ -103,7 +103,10 @@ def c03(chk, thorough):
         'by column, for every response and every a"): index-role typing over PLS, PLSYPredictor, PLSYPredictorAllLV and the two '
         'PLS statistics functions: every q*A-column matrix is produced LV-major (column = q*lv + j), every subscript of a '
         'dimension of role q / A / q*A is an index over the same role, composed columns use multiplier q, decomposed columns '
-        'divide by q. NOT decided: score/weight orthogonality, re-projection equality, the values of b t q^T.')
+        'divide by q. Re-projection clause, structural part only: PLSScorePredictor preprocesses with MatrixPreprocess on the model fields the '
+        'fit filled (RP.same-stats), and the fit and apply branches of MatrixPreprocess perform every centre/scale/zero store under the same '
+        'guards with the same tolerances (FA.agree, G.zero-divisor) -- a necessary condition for the training x-scores to be reproduced. '
+        'NOT decided: score/weight orthogonality, the deflation arithmetic of the re-projection, the values of b t q^T.')
     chk.assumptions = ['role seeds: struct-field identities and public parameter positions listed in lsv/layout.py (DESIGN.md Appendix A)']
     prog = load_program(chk, ['pls.c'])
     nc, nd = layout.run(chk, prog, {'pls.c': layout.FUNCTIONS['pls.c']})
@@ -113,6 +116,14 @@ def c03(chk, thorough):
         chk.broke('only %d composing column sites in pls.c, floor 3' % nc)
     if nd < 1:
         chk.broke('no decomposing column site in pls.c (the residual loop), floor 1')
+    # re-projection clause, structural part: the predictor re-applies the transform the fit applied
+    from . import guards
+    prog2 = load_program(chk, ['pls.c', 'preprocessing.c', 'matrix.c', 'vector.c'])
+    guards.zero_divisor(chk, prog2, {'preprocessing.c'})
+    guards.fit_apply_agreement(chk, prog2)
+    guards.reprojection_stats(chk, prog2)
+    chk.floor('FA.agree', 3)
+    chk.floor('RP.same-stats', 1)
 
 
 def c05(chk, thorough):
@@ -211,6 +222,7 @@ def c10(chk, thorough):
     guards.missing_guard(chk, prog, {'matrix.c': guards.STAT_FUNCS['matrix.c']})
     guards.preprocess_options(chk, prog)
     guards.centered_spread(chk, prog, ['MatrixColSDEV', 'MatrixColVar'])
+    guards.fit_apply_agreement(chk, prog)
     chk.floor('G.centered-spread', 2)
     chk.floor('G.missing', 5)
     chk.floor('G.options', 7)
